@@ -410,6 +410,28 @@ def run_config(code, n, variant, mask, evaluated, ctx):
             ctx.count('transitions')
             compare('%d:set(%d,%d)' % (s, i, v))
         if label in ('path', 'single0'):
+            # the original, with its history, is extracted from once more:
+            # the new extract is the extract of the model as it is NOW
+            # (after one more change that only the original sees)
+            if ops:
+                lib.observe(ev.set_cell_value, addr(ops[0][0], variant), 13)
+            try:
+                with lib.time_limit():
+                    again = lib.ModelCompiler.extract(model,
+                                                      focus=list(items))
+                eva = lib.Evaluator(again)
+                for f in items:
+                    ctx.check('%s/%s/re-extracted/%s' % (key0, label, f),
+                              lib.observe(eva.evaluate, f),
+                              lib.observe(ev.evaluate, f),
+                              tags + ['oracle:same-value',
+                                      'history:second-extraction'], inputs,
+                              nontriv)
+            except lib.CaseTimeout:
+                ctx.fail('%s/%s/re-extracted' % (key0, label),
+                         tags + ['oracle:extract'], inputs, 'extracted',
+                         'timeout', nontriv)
+            ctx.count('transitions')
             second_generation(ext, eve, history, items)
             if len(items) > 1:
                 # a narrower focus reaches the other cells through formulas
